@@ -497,7 +497,7 @@ Section Rank.
     - (* PNew *) cbn [step1] in H. destruct (lookup (w_props w) p) eqn:Hp; [discriminate H|]. inversion H; subst w'.
       exists (bump rk p M), (S M). apply RANKED_new_prop; assumption.
     - (* PDel: a property that no live binding reads *)
-      destruct (PropGrowMore.del_shape fn rtl fuel w p w' Hinv Hna (PropGrowMore.no_reader_sound w p Ho) H) as (pr & Hp & Pw & Gw & _ & _ & Hevs).
+      destruct (PropGrowMore.del_shape fn rtl fuel w p w' Hinv (PropGrowMore.no_reader_sound w p Ho) H) as (pr & Hp & Pw & Gw & _ & _ & Hevs).
       assert (Pv : pview w p = Some (psigs_of pr)) by (unfold pview; rewrite Hp; reflexivity).
       assert (K3' : forall y, lookup (w_props w') y <> None -> rk y < M).
       { intros y Hy. apply K3. rewrite Pw in Hy. destruct (Nat.eq_dec y p) as [->|Hne]; [rewrite lookup_remove_same in Hy; contradiction|].
